@@ -25,7 +25,8 @@ ASSUMPTIONS = [
 
 THIS, B1, B2, C1 = 0xAAAA, 0xB1, 0xB2, 0xC1
 C1_CODE = "602a5f5260205ff3"  # returns the word 0x2a
-ALIAS_MARKS = ("EXTCODESIZE', ('x'", "EXTCODEHASH', ('x'", "balance', ('x'", "callx")
+ALIAS_MARKS = ("EXTCODESIZE', ('x'", "EXTCODEHASH', ('x'", "balance', ('x'", "callx", "create_probe")
+NEW_ADDR = 0xAAAA0002  # the address halmos gives the first contract created in a transaction
 
 
 def uses_alias(stmts):
@@ -79,7 +80,7 @@ def mk_grid(spec):
         syms["v"] = 256
         special["v"] = [0, 1]
     if spec.get("alias"):
-        special["x"] = D + [THIS, B1, C1, 0xDEAD, (1 << 160) + C1]
+        special["x"] = D + [THIS, B1, C1, 0xDEAD, (1 << 160) + C1, NEW_ADDR]
     for a in spec["accounts"].values():
         if isinstance(a.get("balance"), list):
             syms[a["balance"][1]] = 256
